@@ -336,7 +336,7 @@ def run_property(prop, tier, seed):
             path = os.path.join(ROOT, "replays", "%s-witness-%s.txt" % (prop, k["witness"]))
             with open(path, "w") as fh:
                 fh.write("# regression witness %s of fixed finding (%s)\n# replay: build/bin/<%s binary> witness %s\n%s\n%s\n" % (
-                    k["witness"], k["text"], prop, k["witness"], out, err[-3000:]))
+                    k["witness"], k["text"].replace("\n", " "), prop, k["witness"], out, err[-3000:]))
             violations.append(path)
 
     # ---- regression witnesses (always expected to pass)
@@ -624,11 +624,20 @@ def main():
                 if line.startswith("# config "):
                     cfg = line.split()[2]
                     break
+        wname = None
+        first = open(path, errors="replace").readline()
+        if first.startswith("# regression witness "):
+            wname = first.split()[3]
+            if "(config " in first:
+                cfg = first.split("(config ")[1].split(")")[0]
         out, err = compile_one(prop, cfg)
         if err:
             log(err)
             return 2
-        rc, o, e = run_proc([out, "replay", path, "--config", cfg] + active_known_arg(), 600)
+        if wname:
+            rc, o, e = run_proc([out, "witness", wname] + active_known_arg(), 900)
+        else:
+            rc, o, e = run_proc([out, "replay", path, "--config", cfg] + active_known_arg(), 600)
         sys.stdout.write(o)
         sys.stdout.write(e[-4000:])
         if rc != 0:
